@@ -230,17 +230,18 @@ Section Num.
   Proof. intros; simpl. rewrite N.eqb_sym, H. reflexivity. Qed.
 
   (* parse_int on [-]digits[L] *)
-  Lemma parse_int_dec : forall sg ds sfx v,
+  Lemma parse_int_dec : forall full sg ds sfx v,
     digits ds -> dval ds 0 = Z.abs v -> Z.abs v < 2 ^ 64 ->
     ((0 <= v /\ sg = []) \/ (v < 0 /\ sg = [45%N])) ->
     (v = 0 -> ds = [48%N]) ->
     (exists d t, ds = d :: t /\ (v <> 0 -> d <> 48%N)) ->
     (sfx = [] \/ sfx = [76%N]) ->
-    exists value_, parse_int (sg ++ ds ++ sfx) = Some value_ /\
-      (sfx = [] -> cast KI32 value_ = cast KI32 v) /\
-      (sfx = [76%N] -> cast KI64 value_ = cast KI64 v).
+    exists value_, parse_int full (sg ++ ds ++ sfx) = Some value_ /\
+      (full = false -> (sfx = [] -> cast KI32 value_ = cast KI32 v) /\
+                       (sfx = [76%N] -> cast KI64 value_ = cast KI64 v)) /\
+      (full = true -> value_ = wrap64 v).
   Proof.
-    intros sg ds sfx v Hd Hv Hlt Hsg H0 (d & t & -> & Hnz) Hsfx.
+    intros full sg ds sfx v Hd Hv Hlt Hsg H0 (d & t & -> & Hnz) Hsfx.
     assert (Hdd : is_digit d = true).
     { unfold digits in Hd; simpl in Hd; now apply andb_true_iff in Hd as [? _]. }
     destruct (is_digit_facts d Hdd) as (Hp & Hm & Hz & Hdot & Hup & _).
@@ -249,8 +250,9 @@ Section Num.
     - (* the text is "0" or "0L": parseInt hands it to parseBinary *)
       specialize (H0 eq_refl). injection H0 as -> ->.
       destruct Hsg as [[_ ->]|[? _]]; [|lia].
-      destruct Hsfx as [->| ->]; (eexists; split; [vm_compute; reflexivity|]);
-        split; intros E; try discriminate; reflexivity.
+      destruct full; destruct Hsfx as [->| ->]; (eexists; split; [vm_compute; reflexivity|]);
+        (split; [intros E; try discriminate; split; intros E'; try discriminate; reflexivity
+                | intros E; try discriminate; reflexivity]).
     - specialize (Hnz Hv0). apply N.eqb_neq in Hnz.
       assert (Hloop : forall rest, (rest = [] \/ rest = [76%N]) ->
                  dec_loop ((d :: t) ++ rest) 0 = (Z.abs v, rest)).
@@ -264,19 +266,25 @@ Section Num.
       + unfold parse_int. simpl app. rewrite (skip_ws_stop d _ Hws).
         unfold strip_sign. rewrite Hp, Hm. simpl orb. cbv iota. rewrite Hnz.
         change (d :: t ++ sfx) with ((d :: t) ++ sfx). rewrite (Hloop sfx Hsfx).
-        destruct Hsfx as [->| ->]; simpl int_sfx; cbv iota beta.
-        * eexists; split; [reflexivity|]. split; intros E; try discriminate.
-          apply cast_i32_wrap64. f_equal; lia.
-        * eexists; split; [reflexivity|]. split; intros E; try discriminate.
-          apply cast_i64_wrap64. f_equal; lia.
+        destruct full.
+        * eexists; split; [reflexivity|]. split; [discriminate|]. intros _.
+          rewrite wrap64_small by lia. lia.
+        * destruct Hsfx as [->| ->]; simpl int_sfx; cbv iota beta.
+          -- eexists; split; [reflexivity|]. split; [|discriminate]. intros _. split; intros E; try discriminate.
+             apply cast_i32_wrap64. f_equal; lia.
+          -- eexists; split; [reflexivity|]. split; [|discriminate]. intros _. split; intros E; try discriminate.
+             apply cast_i64_wrap64. f_equal; lia.
       + unfold parse_int. simpl app. simpl skip_ws. unfold strip_sign. simpl N.eqb. simpl orb. cbv iota.
         rewrite Hnz.
         change (d :: t ++ sfx) with ((d :: t) ++ sfx). rewrite (Hloop sfx Hsfx).
-        destruct Hsfx as [->| ->]; simpl int_sfx; cbv iota beta.
-        * eexists; split; [reflexivity|]. split; intros E; try discriminate.
-          apply cast_i32_wrap64. now apply wrap64_neg_abs.
-        * eexists; split; [reflexivity|]. split; intros E; try discriminate.
-          apply cast_i64_wrap64. now apply wrap64_neg_abs.
+        destruct full.
+        * eexists; split; [reflexivity|]. split; [discriminate|]. intros _.
+          f_equal; lia.
+        * destruct Hsfx as [->| ->]; simpl int_sfx; cbv iota beta.
+          -- eexists; split; [reflexivity|]. split; [|discriminate]. intros _. split; intros E; try discriminate.
+             apply cast_i32_wrap64. now apply wrap64_neg_abs.
+          -- eexists; split; [reflexivity|]. split; [|discriminate]. intros _. split; intros E; try discriminate.
+             apply cast_i64_wrap64. now apply wrap64_neg_abs.
   Qed.
 
   (* parse_int never throws on a sign followed by digits (the exponent of a printed double) *)
@@ -288,10 +296,10 @@ Section Num.
     destruct (Z.ltb_spec (digit_val c) 10); [|lia]. now apply IH.
   Qed.
 
-  Lemma parse_int_exponent : forall es ex, (es = 43%N \/ es = 45%N) -> digits ex -> ex <> [] ->
-    exists z, parse_int (es :: ex) = Some z.
+  Lemma parse_int_exponent : forall full es ex, (es = 43%N \/ es = 45%N) -> digits ex -> ex <> [] ->
+    exists z, parse_int full (es :: ex) = Some z.
   Proof.
-    intros es ex Hes Hd Hne. destruct ex as [|d t]; [congruence|].
+    intros full es ex Hes Hd Hne. destruct ex as [|d t]; [congruence|].
     assert (Hdd : is_digit d = true).
     { unfold digits in Hd; simpl in Hd; now apply andb_true_iff in Hd as [? _]. }
     assert (Hdt : digits t).
@@ -315,6 +323,7 @@ Section Num.
           split; apply N.eqb_neq; lia. }
         rewrite Hz. eexists; reflexivity.
     - destruct (dec_loop (d :: t) 0) as [ret s2] eqn:E1.
+      destruct full; [eexists; reflexivity|].
       destruct (int_sfx s2 0 false) as [longs uns] eqn:E2.
       eexists; reflexivity.
   Qed.
